@@ -35,6 +35,8 @@ def repo_sources(repo=None):
 def build_driver(flavor='plain', repo=None, main='driver.cpp', extra_flags=(), libs=()):
     """Compile harness/<main> together with /repo/src/*.cpp. Returns path of the binary."""
     repo = repo or REPO
+    # bin/tie-coverage: every flavor of the script driver is replaced by the gcov-instrumented one (dev tool, never set by a check)
+    if os.environ.get('EZ_COV_DRIVER') and main == 'driver.cpp' and flavor != 'tsan': return os.environ['EZ_COV_DRIVER']
     srcs, hdrs = repo_sources(repo)
     mainp = os.path.join(VERIF, 'harness', main)
     flags = ['-std=c++11', '-w', '-I' + os.path.join(repo, 'include')] + FLAVORS[flavor] + list(extra_flags)
